@@ -15,7 +15,7 @@ fn gen(r: &mut Rng, _cfg: &RunCfg) -> Case {
         4..=5 => gen_line(r, TextDomain::Any),
         6 => {
             // lines with embedded CR / LF / U+2028
-            let m = Mix::swarm(r, &[Class::Ascii, Class::Wide, Class::Zero, Class::Punct, Class::Space, Class::Para, Class::Clean]);
+            let m = Mix::swarm(r, &[Class::Ascii, Class::Wide, Class::Zero, Class::Punct, Class::Space, Class::Para, Class::Clean, Class::Scalars]);
             { let n = r.range(1, 12); m.text(r, n) }
         }
         _ => {
@@ -51,7 +51,7 @@ pub fn check(case: &Case, obs: &mut Obs) -> Verdict {
     let mut starts = Vec::new();
     for (k, w) in words.iter().enumerate() {
         let end = pos + w.word.len() + w.whitespace.len();
-        if end > line.len() || &line[pos..pos + w.word.len()] != w.word || &line[pos + w.word.len()..end] != w.whitespace {
+        if line.get(pos..pos + w.word.len()) != Some(w.word) || line.get(pos + w.word.len()..end) != Some(w.whitespace) {
             return Verdict::Violated(format!("word {} ({:?},{:?}) is not the next piece of the line at byte {}", k, w.word, w.whitespace, pos));
         }
         if w.word.as_ptr() as usize != line.as_ptr() as usize + pos && !w.word.is_empty() {
